@@ -211,3 +211,177 @@ func TestConcurrentConnections(t *testing.T) {
 	}
 	vh.Check(t, "TestConcurrentConnections", vh.N(400, 8000), gen, runMulti)
 }
+
+// ---- several channels of ONE connection: the packets of their responses arrive interleaved
+// (packet by packet, in a generated order). Each channel delivers what its response delivers
+// alone and unfragmented.
+
+type chanPart struct {
+	Pkgs []rc.P `json:"pkgs"`
+	Cuts []int  `json:"cuts"`
+}
+
+type interleaveCase struct {
+	Chans []chanPart `json:"channels"` // index 0 is the main channel
+	Order []int      `json:"order"`
+}
+
+func runInterleaved(c interleaveCase) (f *vh.Failure) {
+	defer func() {
+		if r := recover(); r != nil {
+			vh.CheckHarnessPanic(r)
+			f = vh.Failf("C02/panic", "panic: %v", r)
+		}
+	}()
+	ctx, cancel := context.WithCancel(context.Background())
+	pipe := peer.NewPipe()
+	conn, done, err := tds.VerifNewConn(ctx, pipe, &tds.Info{ChannelPackageQueueSize: 100000, PacketReadTimeout: 5}, true)
+	if err != nil {
+		vh.HarnessBug("VerifNewConn: %v", err)
+	}
+	defer func() {
+		cancel()
+		pipe.Close()
+		go func() { defer func() { recover() }(); conn.Close() }()
+		select {
+		case <-done:
+		case <-time.After(10 * time.Second):
+			if f == nil {
+				f = vh.Failf("C02/reader-does-not-end", "reader goroutine still running 10 s after close")
+			}
+		}
+	}()
+	var chans []*tds.Channel
+	off := 0
+	for i := range c.Chans {
+		if i == 0 {
+			ch, err := conn.NewChannel()
+			if err != nil {
+				vh.HarnessBug("NewChannel: %v", err)
+			}
+			chans = append(chans, ch)
+			continue
+		}
+		type res struct {
+			ch  *tds.Channel
+			err error
+		}
+		rch := make(chan res, 1)
+		go func() { ch, err := conn.NewChannel(); rch <- res{ch, err} }()
+		ps, n, err := pipe.WaitMessage(off, 3*time.Second)
+		if err != nil || len(ps) != 1 || ps[0].Type != rc.BufSetup {
+			return vh.Failf("C02/setup", "no SETUP packet for logical channel %d: %v", i, err)
+		}
+		off = n
+		pipe.Feed(rc.Packet{Type: rc.BufProtAck, Channel: ps[0].Channel, Status: rc.StatEOM}.Bytes())
+		select {
+		case r := <-rch:
+			if r.err != nil {
+				return vh.Failf("C02/setup", "NewChannel (logical): %v", r.err)
+			}
+			chans = append(chans, r.ch)
+		case <-time.After(3 * time.Second):
+			return vh.Failf("C02/setup", "NewChannel (logical) did not return after the acknowledgement")
+		}
+	}
+	type part struct {
+		packets []rc.Packet
+		next    int
+		ref     delivered
+		model   []rc.P
+	}
+	parts := make([]*part, len(c.Chans))
+	for i, cp := range c.Chans {
+		stream, _, _, err := rc.EncodeStream(cp.Pkgs)
+		if err != nil {
+			vh.HarnessBug("encode: %v", err)
+		}
+		ref, f := runPackets(rc.Packetise(stream, nil, rc.BufResponse, 0))
+		if f != nil {
+			return f
+		}
+		p := &part{packets: rc.Packetise(stream, cp.Cuts, rc.BufResponse, uint16(chans[i].VerifID())), ref: ref}
+		p.model, _ = respgen.Deliver(cp.Pkgs)
+		parts[i] = p
+	}
+	interleaved := false
+	last := -1
+	for step := 0; ; step++ {
+		var open []int
+		for i, p := range parts {
+			if p.next < len(p.packets) {
+				open = append(open, i)
+			}
+		}
+		if len(open) == 0 {
+			break
+		}
+		pick := open[0]
+		if step < len(c.Order) {
+			pick = open[c.Order[step]%len(open)]
+		}
+		p := parts[pick]
+		if last >= 0 && last != pick && parts[last].next > 0 && parts[last].next < len(parts[last].packets) {
+			interleaved = true
+		}
+		pipe.Feed(p.packets[p.next].Bytes())
+		p.next++
+		last = pick
+	}
+	if !pipe.WaitDrained(20 * time.Second) {
+		return vh.Failf("C02/reader-stuck", "reader did not come back for more input within 20 s")
+	}
+	for i, p := range parts {
+		var d delivered
+		drain(ctx, conn, chans[i], &d)
+		how := fmt.Sprintf("channel %d of %d on one connection, response [%s] cuts %v, packets of the channels interleaved in order %v", chans[i].VerifID(), len(chans), respgen.Describe(c.Chans[i].Pkgs), c.Chans[i].Cuts, c.Order)
+		if len(d.errs) > 0 {
+			return vh.Failf("C02/interleaved-channels-error", "%s: errors surfaced: %v", how, d.errs)
+		}
+		if len(d.pkgs) != len(p.ref.pkgs) {
+			return vh.Failf("C02/interleaved-channels-delivery-differs", "%s: delivered [%s], alone and unfragmented it delivers [%s]", how, describe(d.pkgs), describe(p.ref.pkgs))
+		}
+		fmts := respgen.FormatBefore(p.model)
+		for j := range d.pkgs {
+			if !reflect.DeepEqual(p.ref.pkgs[j], d.pkgs[j]) && pkggen.LibEqual(p.model[j], fmts[j], d.pkgs[j]) != nil {
+				return vh.Failf("C02/interleaved-channels-delivery-differs", "%s: package %d differs: %v vs alone and unfragmented %v", how, j, d.pkgs[j], p.ref.pkgs[j])
+			}
+		}
+	}
+	if e := conn.VerifConnErr(); e != nil {
+		return vh.Failf("C02/interleaved-channels-error", "connection error: %v", e)
+	}
+	vh.Label(fmt.Sprintf("channels-on-one-connection=%d", len(chans)))
+	if interleaved {
+		vh.Label("packets-of-other-channel-inside-a-message")
+		vh.NonTrivial(fmt.Sprintf("%+v", c))
+	}
+	return nil
+}
+
+func TestInterleavedChannels(t *testing.T) {
+	gen := func(rt *rapid.T) interleaveCase {
+		var c interleaveCase
+		n := rapid.IntRange(2, 3).Draw(rt, "channels")
+		total := 0
+		for i := 0; i < n; i++ {
+			ps := respgen.Gen(rt, respgen.Opts{MaxStatements: 2, MaxEED: 1, MaxEnv: 1})
+			stream, _, _, err := rc.EncodeStream(ps)
+			if err != nil {
+				vh.HarnessBug("encode: %v", err)
+			}
+			cuts := respgen.Cuts(rt, len(stream), true)
+			if len(cuts) > 30 {
+				cuts = cuts[:30]
+			}
+			total += len(cuts) + 1
+			c.Chans = append(c.Chans, chanPart{Pkgs: ps, Cuts: cuts})
+		}
+		c.Order = rapid.SliceOfN(rapid.IntRange(0, 5), total, total).Draw(rt, "order")
+		if total < 10 {
+			vh.Sample("interleaved-channels", c)
+		}
+		return c
+	}
+	vh.Check(t, "TestInterleavedChannels", vh.N(400, 8000), gen, runInterleaved)
+}
